@@ -1552,6 +1552,376 @@ fn gen_history(rng: &mut Rng, len: usize) -> (String, String, Vec<String>) {
     (src, req, stmts.iter().map(|s| s.kind().to_string()).collect())
 }
 
+
+// ---------------------------------------------------------------------------------------------
+// `for` clauses whose patterns hold expressions that are not constant over the loop
+//
+// A pattern's annotations (`x: ts[i]`, `x: tv`, `x: t()`) and the callee of a call pattern
+// (`cf(a, b)`, `cs[i](a, b)`) are expressions; the interpreter evaluates them when an element is
+// bound.  The body moves the state they read (i += 1, tv = str, cf = S0) and logs what was bound.
+// Variables (model ids): 0 r (log), 1 i, 2 n (call counter), 3 ts, 4 tv, 5 cf, 6 cs, 9 zz (never
+// declared), 10.. loop variables a0..
+fn for_name(id: usize) -> String {
+    match id {
+        0 => "r".into(),
+        1 => "i".into(),
+        2 => "n".into(),
+        3 => "ts".into(),
+        4 => "tv".into(),
+        5 => "cf".into(),
+        6 => "cs".into(),
+        9 => "zz".into(),
+        k => format!("a{}", k - 10),
+    }
+}
+/// callee values: builtin tokens as in `biOfTok` (Impl/PatternFor.lean), struct types, other things
+fn cval_src(v: &V) -> String {
+    match v {
+        V::Func(10) => "+".into(),
+        V::Func(12) => "*".into(),
+        V::Func(14) => "+.".into(),
+        V::Func(15) => ".+".into(),
+        V::Func(20) => "<".into(),
+        V::Func(21) => "<=".into(),
+        V::Func(22) => ">".into(),
+        V::Func(23) => ">=".into(),
+        V::Func(24) => "==".into(),
+        V::Func(25) => "!=".into(),
+        V::Func(1) => "print".into(),
+        V::Func(_) => "(\\z -> z)".into(),
+        V::List(xs) => format!("[{}]", xs.iter().map(cval_src).collect::<Vec<_>>().join(", ")),
+        v => v.src(),
+    }
+}
+fn cval_proto(v: &V) -> String {
+    match v {
+        V::Func(t) if [1usize, 10, 12, 14, 15, 20, 21, 22, 23, 24, 25].contains(t) => format!("F{}", t),
+        V::Func(_) => "F0".into(),
+        V::List(xs) => format!("[{}]", xs.iter().map(cval_proto).collect::<Vec<_>>().join(",")),
+        v => v.proto(),
+    }
+}
+#[derive(Clone, Debug)]
+enum PE {
+    Const(V),
+    Var(usize),
+    Index(usize, usize),
+    /// `t()` (which = 0) / `u()` (which = 1): increments n, then yields the inner expression
+    Counted(u8, Box<PE>),
+}
+impl PE {
+    fn src(&self) -> String {
+        match self {
+            PE::Const(v) => cval_src(v),
+            PE::Var(x) => for_name(*x),
+            PE::Index(a, b) => format!("{}[{}]", for_name(*a), for_name(*b)),
+            PE::Counted(0, _) => "t()".into(),
+            PE::Counted(_, _) => "u()".into(),
+        }
+    }
+    fn proto(&self) -> String {
+        match self {
+            PE::Const(v) => format!("c{}", cval_proto(v)),
+            PE::Var(x) => format!("v{}", x),
+            PE::Index(a, b) => format!("x{}.{}", a, b),
+            PE::Counted(_, e) => format!("n2({})", e.proto()),
+        }
+    }
+    fn kind(&self) -> &'static str {
+        match self {
+            PE::Const(_) => "const",
+            PE::Var(9) => "undefined",
+            PE::Var(_) => "var",
+            PE::Index(..) => "index",
+            PE::Counted(..) => "counted",
+        }
+    }
+}
+#[derive(Clone, Debug)]
+enum UP {
+    Under,
+    Ident(usize),
+    Anno(Box<UP>, PE),
+    Seq(Vec<UP>, bool),
+    Splat(Box<UP>),
+    Call(PE, Vec<UP>),
+}
+impl UP {
+    fn src(&self) -> String {
+        match self {
+            UP::Under => "_".into(),
+            UP::Ident(x) => for_name(*x),
+            UP::Anno(p, t) => format!("({}: {})", p.src(), t.src()),
+            UP::Seq(ps, false) if ps.len() == 1 => format!("({},)", ps[0].src()),
+            UP::Seq(ps, false) => format!("({})", ps.iter().map(|p| p.src()).collect::<Vec<_>>().join(", ")),
+            UP::Seq(ps, true) => format!("[{}]", ps.iter().map(|p| p.src()).collect::<Vec<_>>().join(", ")),
+            UP::Splat(p) => format!("...{}", p.src()),
+            UP::Call(f, args) => format!("{}({})", f.src(), args.iter().map(|p| p.src()).collect::<Vec<_>>().join(", ")),
+        }
+    }
+    /// as the whole pattern of a clause: an annotated name needs no parentheses there
+    fn top_src(&self, bare: bool) -> String {
+        match self {
+            UP::Anno(p, t) if bare && matches!(**p, UP::Ident(_)) => format!("{}: {}", p.src(), t.src()),
+            p => p.src(),
+        }
+    }
+    fn proto(&self) -> String {
+        let list = |ps: &Vec<UP>| ps.iter().map(|p| p.proto()).collect::<Vec<_>>().join(",");
+        match self {
+            UP::Under => "U".into(),
+            UP::Ident(x) => format!("I{}", x),
+            UP::Anno(p, t) => format!("A({},{})", p.proto(), t.proto()),
+            UP::Seq(ps, false) => format!("S({})", list(ps)),
+            UP::Seq(ps, true) => format!("L({})", list(ps)),
+            UP::Splat(p) => format!("P({})", p.proto()),
+            UP::Call(f, args) => format!("K({};{})", f.proto(), list(args)),
+        }
+    }
+}
+/// a value of the given type (for the annotation vocabulary of the `for` cases)
+fn for_val_of(rng: &mut Rng, t: &Ty) -> V {
+    match t {
+        Ty::Int => V::Int(rng.range(0, 9) as i128),
+        Ty::Str => V::Str(rng.pick(&["a", "bc", ""]).to_string()),
+        Ty::List => V::List((0..rng.below(3)).map(|k| V::Int(k as i128)).collect()),
+        Ty::Rational => V::Rat(1, 2),
+        Ty::Number => if rng.chance(1, 2) { V::Int(3) } else { V::Rat(3, 2) },
+        Ty::Null => V::Null,
+        Ty::Struct(0) => V::Inst(0, vec![V::Int(7)]),
+        Ty::Struct(1) => V::Inst(1, vec![V::Int(7), V::Str("q".into())]),
+        Ty::Sat(0) => V::Int(rng.range(1, 5) as i128),
+        _ => if rng.chance(1, 2) { V::Int(4) } else { V::Str("z".into()) },
+    }
+}
+const FOR_TYPES: &[Ty] = &[Ty::Int, Ty::Str, Ty::List, Ty::Number, Ty::Rational, Ty::Any, Ty::Null, Ty::Struct(0), Ty::Struct(1), Ty::Sat(0)];
+/// what the callee accepts when called as a two-argument pattern `f(a, b)`
+fn for_val_for_callee(rng: &mut Rng, c: &V) -> V {
+    let two = |a: i128, b: i128| V::List(vec![V::Int(a), V::Int(b)]);
+    match c {
+        V::Func(20) | V::Func(21) | V::Func(25) => two(1, 2 + rng.below(3) as i128),
+        V::Func(22) | V::Func(23) => two(5, rng.below(3) as i128),
+        V::Func(24) => two(3, 3),
+        V::Func(14) | V::Func(15) => V::List((0..1 + rng.below(3)).map(|k| V::Int(k as i128 + 1)).collect()),
+        V::Type(Ty::Struct(0)) => V::Inst(0, vec![V::Int(rng.range(0, 5) as i128)]),
+        V::Type(Ty::Struct(1)) => V::Inst(1, vec![V::Int(rng.range(0, 5) as i128), V::Str("f".into())]),
+        _ => two(1, 2),
+    }
+}
+const CALLEES: &[usize] = &[20, 20, 21, 22, 23, 24, 25, 14, 15, 15, 10, 12, 1, 0];
+fn gen_callee(rng: &mut Rng) -> V {
+    match rng.below(10) {
+        0 | 1 => V::Type(Ty::Struct(1)),
+        2 => V::Type(Ty::Struct(0)),
+        3 if rng.chance(1, 3) => V::Int(5),
+        3 => V::Type(Ty::Int),
+        _ => V::Func(*rng.pick(CALLEES)),
+    }
+}
+
+/// (source, request, kind)
+fn gen_for(rng: &mut Rng) -> (String, String, String) {
+    // --- state
+    let nts = 2 + rng.below(2) as usize;
+    let mut ts: Vec<V> = (0..nts).map(|_| V::Type(rng.pick(FOR_TYPES).clone())).collect();
+    if rng.chance(1, 12) {
+        let k = rng.below(nts as u64) as usize;
+        ts[k] = V::Int(5); // not a type: the annotation raises when it gets there
+    }
+    let tv0 = rng.pick(FOR_TYPES).clone();
+    let tv1 = rng.pick(FOR_TYPES).clone();
+    let cf0 = gen_callee(rng);
+    let cf1 = gen_callee(rng);
+    let cs: Vec<V> = (0..nts).map(|_| gen_callee(rng)).collect();
+    // --- the expression that changes over the loop
+    let callee_mode = rng.chance(2, 5);
+    let base: PE = if callee_mode {
+        match rng.below(8) {
+            0 => PE::Const(cf0.clone()),
+            1..=3 => PE::Var(5),
+            4..=6 => PE::Index(6, 1),
+            _ => PE::Var(9),
+        }
+    } else {
+        match rng.below(10) {
+            0 => PE::Const(V::Type(tv0.clone())),
+            1..=3 => PE::Var(4),
+            4..=7 => PE::Index(3, 1),
+            8 => PE::Var(9),
+            _ => PE::Const(V::Int(3)),
+        }
+    };
+    let counted = rng.chance(3, 10);
+    let expr = if counted { PE::Counted(if callee_mode { 1 } else { 0 }, Box::new(base.clone())) } else { base.clone() };
+    // --- what the expression denotes at iteration j, as far as the generator can tell (None: raises)
+    let tick_i = !matches!(base, PE::Var(_)) || rng.chance(1, 3);
+    let tick_var = matches!(base, PE::Var(4) | PE::Var(5)) || rng.chance(1, 6);
+    let denote = |j: usize| -> Option<V> {
+        match &base {
+            PE::Const(v) => Some(v.clone()),
+            PE::Var(4) => Some(V::Type(if j == 0 || !tick_var { tv0.clone() } else { tv1.clone() })),
+            PE::Var(5) => Some(if j == 0 || !tick_var { cf0.clone() } else { cf1.clone() }),
+            PE::Index(3, _) => if tick_i { ts.get(j).cloned() } else { ts.get(0).cloned() },
+            PE::Index(6, _) => if tick_i { cs.get(j).cloned() } else { cs.get(0).cloned() },
+            _ => None,
+        }
+    };
+    // --- clauses
+    let item = rng.chance(1, 4);
+    let nested = !item && rng.chance(1, 4);
+    let n_items = match rng.below(10) { 0 => 0, 1 => 1, 2..=5 => 2, 6..=8 => 3, _ => 4 };
+    let x = 10usize;
+    let y = 11usize;
+    let z = 12usize;
+    // element j: chosen to fit what the expression denotes then (mostly), or what it denoted at first
+    let mut elems: Vec<V> = vec![];
+    let shape = rng.below(4);
+    for j in 0..n_items {
+        let which = if rng.chance(3, 4) { j } else { 0 };
+        let d = denote(which);
+        let fit: V = if callee_mode {
+            match &d { Some(c) => for_val_for_callee(rng, c), None => V::List(vec![V::Int(1), V::Int(2)]) }
+        } else {
+            match &d {
+                Some(V::Type(t)) => for_val_of(rng, t),
+                _ => V::Int(1),
+            }
+        };
+        let e = if callee_mode || item {
+            fit
+        } else {
+            match shape {
+                0 | 1 => fit,
+                2 => V::List(vec![fit, V::Int(j as i128)]),
+                _ => V::List(vec![V::Str("h".into()), fit, V::Int(0)]),
+            }
+        };
+        elems.push(e);
+    }
+    let pat: UP = if callee_mode {
+        let args = match rng.below(6) {
+            0 => vec![UP::Ident(x)],
+            1 => vec![UP::Ident(x), UP::Under],
+            2 => vec![UP::Ident(x), UP::Anno(Box::new(UP::Ident(y)), PE::Const(V::Type(Ty::Any)))],
+            _ => vec![UP::Ident(x), UP::Ident(y)],
+        };
+        UP::Call(expr.clone(), args)
+    } else if item {
+        match rng.below(3) {
+            0 => UP::Seq(vec![UP::Ident(y), UP::Anno(Box::new(UP::Ident(x)), expr.clone())], false),
+            1 => UP::Seq(vec![UP::Under, UP::Anno(Box::new(UP::Ident(x)), expr.clone())], true),
+            _ => UP::Seq(vec![UP::Anno(Box::new(UP::Ident(y)), PE::Const(V::Type(Ty::Int))), UP::Anno(Box::new(UP::Ident(x)), expr.clone())], false),
+        }
+    } else {
+        match shape {
+            0 | 1 => UP::Anno(Box::new(UP::Ident(x)), expr.clone()),
+            2 => UP::Seq(vec![UP::Anno(Box::new(UP::Ident(x)), expr.clone()), UP::Ident(y)], rng.chance(1, 3)),
+            _ => UP::Seq(vec![UP::Under, UP::Anno(Box::new(UP::Ident(x)), expr.clone()), UP::Splat(Box::new(UP::Ident(y)))], false),
+        }
+    };
+    // the iteratee
+    let iter_v: V = if item {
+        match rng.below(5) {
+            0 if n_items >= 1 => V::Dict(vec![(V::Int(0), elems[0].clone())]),
+            1 if n_items == 0 => V::Dict(vec![]),
+            _ => V::List(elems.clone()),
+        }
+    } else if n_items == 0 {
+        rng.pick(&[V::List(vec![]), V::Str(String::new()), V::Dict(vec![]), V::List(vec![])]).clone()
+    } else {
+        V::List(elems.clone())
+    };
+    // nested: the elements come in two groups, iterated by an outer clause
+    let (clauses_src, clauses_proto) = if nested {
+        let cut = n_items / 2;
+        let groups = V::List(vec![V::List(elems[..cut].to_vec()), V::List(elems[cut..].to_vec())]);
+        (
+            format!("{} <- {}; {} <- {}", for_name(z), cval_src(&groups), pat.top_src(rng.chance(1, 2)), for_name(z)),
+            format!("Cn(I{};c{}) Cn({};v{})", z, cval_proto(&groups), pat.proto(), z),
+        )
+    } else {
+        (
+            format!("{} {} {}", pat.top_src(rng.chance(1, 2)), if item { "<<-" } else { "<-" }, cval_src(&iter_v)),
+            format!("C{}({};c{})", if item { "i" } else { "n" }, pat.proto(), cval_proto(&iter_v)),
+        )
+    };
+    // --- body
+    let mut body_src: Vec<String> = vec![];
+    let mut body_proto: Vec<String> = vec![];
+    let mut state_change: Vec<(String, String)> = vec![];
+    if tick_i {
+        state_change.push(("i += 1".into(), "Soplus(I1,1)".into()));
+    }
+    if tick_var {
+        if callee_mode {
+            state_change.push((format!("cf = {}", cval_src(&cf1)), format!("Sa(I5,{})", cval_proto(&cf1))));
+        } else {
+            state_change.push((format!("tv = {}", tv1.src()), format!("Sa(I4,T:{})", tv1.name())));
+        }
+    }
+    let early = rng.chance(1, 4);
+    if early {
+        for (a, b) in &state_change {
+            body_src.push(a.clone());
+            body_proto.push(b.clone());
+        }
+    }
+    body_src.push(format!("r append= {}", for_name(x)));
+    body_proto.push(format!("Gl(0,{})", x));
+    if !callee_mode && rng.chance(1, 2) {
+        // is the loop variable of the type its annotation denotes (now)?
+        body_src.push(format!("r append= ({} is {})", for_name(x), expr.src()));
+        body_proto.push(format!("Gi(0,{},{})", x, expr.proto()));
+    }
+    if !callee_mode && rng.chance(1, 3) {
+        // the declared type stored with the loop variable decides which later assignments are legal
+        let v = if rng.chance(1, 2) { V::Str("b".into()) } else { V::Int(8) };
+        body_src.push(format!("{} = {}", for_name(x), v.src()));
+        body_proto.push(format!("Sa(I{},{})", x, v.proto()));
+        body_src.push(format!("r append= {}", for_name(x)));
+        body_proto.push(format!("Gl(0,{})", x));
+    }
+    if !early {
+        for (a, b) in &state_change {
+            body_src.push(a.clone());
+            body_proto.push(b.clone());
+        }
+    }
+    // --- program
+    let decl = format!(
+        "r := []; i := 0; n := 0; ts := {}; tv := {}; cf := {}; cs := {}; t := \\ -> (n += 1; {}); u := \\ -> (n += 1; {}); ",
+        cval_src(&V::List(ts.clone())),
+        tv0.src(),
+        cval_src(&cf0),
+        cval_src(&V::List(cs.clone())),
+        if callee_mode { "int".to_string() } else { base.src() },
+        if callee_mode { base.src() } else { "<".to_string() },
+    );
+    let src = format!(
+        "{}try (for ({}) ({})) catch e -> (r append= \"raise\"); [r, i, n]",
+        decl,
+        clauses_src,
+        body_src.join("; ")
+    );
+    let env = format!(
+        "E(0,anything,[];1,anything,0;2,anything,0;3,anything,{};4,anything,T:{};5,anything,{};6,anything,{})",
+        cval_proto(&V::List(ts.clone())),
+        tv0.name(),
+        cval_proto(&cf0),
+        cval_proto(&V::List(cs.clone())),
+    );
+    let req = format!("for 3 {} {} {}", env, clauses_proto, body_proto.join(" "));
+    let kind = format!(
+        "for/{}{}{}:{}{}",
+        if item { "<<-" } else { "<-" },
+        if nested { "/nested" } else { "" },
+        if n_items == 0 { "/empty" } else { "" },
+        if callee_mode { "callee-" } else { "anno-" },
+        expr.kind(),
+    );
+    (src, req, kind)
+}
+
 struct Case {
     key: String,
     src: String,
@@ -1985,6 +2355,10 @@ fn main() {
         "thorough" => (120_000usize, 600usize, 25_000usize),
         _ => (5_000usize, 20usize, 1_200usize),
     };
+    let n_for = match args.tier.as_str() {
+        "thorough" => 20_000usize,
+        _ => 900usize,
+    };
 
     let mut interp = Interp::new();
     let setup = |it: &Interp| {
@@ -2231,10 +2605,89 @@ fn main() {
         rep.judge(&key, &input, &rust, &im, &sp);
     }
 
+    // ---- `for` clauses whose patterns hold expressions that change over the loop
+    let mut fs = for_corpus();
+    for _ in 0..n_for {
+        let mut frng = rng.fork();
+        fs.push(gen_for(&mut frng));
+    }
+    let mut fouts = vec![];
+    for (src, _, _) in &fs {
+        let o = interp.eval(&wrap(src));
+        if let Outcome::Panic(_) = o {
+            interp = Interp::new();
+            setup(&interp);
+        }
+        fouts.push(o);
+    }
+    let freqs: Vec<String> = fs.iter().map(|h| h.1.clone()).collect();
+    let fresp = run_driver(&args.driver, &freqs);
+    for (((src, req, kind), o), r) in fs.iter().zip(fouts.iter()).zip(fresp.iter()) {
+        let input = format!("{}  ## {}", src, req);
+        if let Outcome::ParseErr(m) = o {
+            if rep.notes.len() < 20 {
+                rep.notes.push(format!("generator produced unparsable source: {} ({})", src, m));
+            }
+            rep.outcome("parse-error(skipped)");
+            continue;
+        }
+        let (im, sp) = split_resp(r);
+        let rust = match o {
+            Outcome::Ok(s) => format!("ok {}", s),
+            o => o.class(),
+        };
+        rep.case(&input, true);
+        rep.arm(kind);
+        let raised = rust.contains("s:7261697365");
+        rep.outcome(match o {
+            Outcome::Ok(_) => if raised { "loop ended by a raise" } else { "loop completed" },
+            Outcome::Throw(_) => "throw",
+            Outcome::Panic(_) => "panic",
+            _ => "other",
+        });
+        let key = kind.clone();
+        if rust != im || rust != sp {
+            let n = filed.entry(key.clone()).or_insert(0);
+            *n += 1;
+            if *n > CAP {
+                suppressed += 1;
+                continue;
+            }
+        }
+        rep.judge(&key, &input, &rust, &im, &sp);
+    }
+
     if suppressed > 0 {
         rep.notes.push(format!("{} further disagreements under keys that already had {} filed were not listed", suppressed, CAP));
     }
     rep.write(&args.out);
+}
+
+
+/// hand-picked `for` programs (the annotation / callee is not constant over the loop)
+fn for_corpus() -> Vec<(String, String, String)> {
+    let decl = "r := []; i := 0; n := 0; ts := [int, str]; tv := int; cf := <; cs := [<, .+]; t := \\ -> (n += 1; int); u := \\ -> (n += 1; <); ";
+    let env = "E(0,anything,[];1,anything,0;2,anything,0;3,anything,[T:int,T:str];4,anything,T:int;5,anything,F20;6,anything,[F20,F15])";
+    let mk = |clauses: &str, body: &str, cp: &str, bp: &str, kind: &str| {
+        (
+            format!("{}try (for ({}) ({})) catch e -> (r append= \"raise\"); [r, i, n]", decl, clauses, body),
+            format!("for 3 {} {} {}", env, cp, bp),
+            format!("corpus:for/{}", kind),
+        )
+    };
+    vec![
+        mk("a0: ts[i] <- [1, 'a']", "i += 1; r append= a0", "Cn(A(I10,x3.1);c[1,s:61])", "Soplus(I1,1) Gl(0,10)", "index"),
+        mk("a0: ts[i] <- [1, 2]", "r append= (a0 is ts[i]); i += 1", "Cn(A(I10,x3.1);c[1,2])", "Gi(0,10,x3.1) Soplus(I1,1)", "index-stale"),
+        mk("a1, (a0: ts[i]) <<- [7, 'a']", "i += 1; r append= a1; r append= a0", "Ci(S(I11,A(I10,x3.1));c[7,s:61])", "Soplus(I1,1) Gl(0,11) Gl(0,10)", "item"),
+        mk("a0: t() <- [1, 2, 3]", "null", "Cn(A(I10,n2(cT:int));c[1,2,3])", "", "counted"),
+        mk("a0: t() <- []", "null", "Cn(A(I10,n2(cT:int));c[])", "", "counted-empty"),
+        mk("a0: zz <- []", "null", "Cn(A(I10,v9);c[])", "", "undefined-empty"),
+        mk("a0: tv <- [1, 'a']", "r append= a0; tv = str", "Cn(A(I10,v4);c[1,s:61])", "Gl(0,10) Sa(I4,T:str)", "var"),
+        mk("cf(a0, a1) <- [[1, 2], [3, 4, 5]]", "r append= a0; cf = .+", "Cn(K(v5;I10,I11);c[[1,2],[3,4,5]])", "Gl(0,10) Sa(I5,F15)", "callee-var"),
+        mk("cs[i](a0, a1) <- [[1, 2], [3, 4, 5]]", "r append= a1; i += 1", "Cn(K(x6.1;I10,I11);c[[1,2],[3,4,5]])", "Gl(0,11) Soplus(I1,1)", "callee-index"),
+        mk("u()(a0, a1) <- [[1, 2], [4, 5]]", "r append= a1", "Cn(K(n2(cF20);I10,I11);c[[1,2],[4,5]])", "Gl(0,11)", "callee-counted"),
+        mk("a2 <- [[1], ['a']]; a0: ts[i] <- a2", "r append= a0; i += 1", "Cn(I12;c[[1],[s:61]]) Cn(A(I10,x3.1);v12)", "Gl(0,10) Soplus(I1,1)", "nested"),
+    ]
 }
 
 /// inputs of past findings and hand-picked boundary cases, run first
